@@ -55,6 +55,9 @@ type auA struct {
 	RpsArg    int     `json:"rpsarg,omitempty"`
 	Poc       int     `json:"poc,omitempty"`    // H264 with reordering: pic_order_cnt_lsb of the slice header
 	BSlice    bool    `json:"bslice,omitempty"` // H264 with reordering: a B slice
+	// H264 / H265: an access unit made of the parameter sets alone (sent ahead of the IDR they apply to). H264: no
+	// unit (the muxer takes the parameter sets and writes nothing); H265: one unit, written as a sample of its own
+	ParamsOnly bool `json:"paramsonly,omitempty"`
 	Units     []unitA `json:"units"`
 }
 
@@ -172,6 +175,10 @@ func concretize(h *history, a *auA) concrete {
 		if a.HasParams {
 			au = append(au, spsOfT(t, a.pset().S), ppsOf(a.pset().P))
 		}
+		if a.ParamsOnly {
+			c.au = au
+			break
+		}
 		u := a.Units[0]
 		switch {
 		case t.Reorder:
@@ -189,7 +196,9 @@ func concretize(h *history, a *auA) concrete {
 			au = append(au, h265VPSOf(a.pset().V), h265SPSOf(a.pset().S), h265PPSOf(a.pset().P))
 		}
 		u := a.Units[0]
-		au = append(au, h265Slice(h265SliceType(u.ID, a.RA), u.ID, u.Len, a.RpsArg))
+		if !a.ParamsOnly {
+			au = append(au, h265Slice(h265SliceType(u.ID, a.RA), u.ID, u.Len, a.RpsArg))
+		}
 		c.au = au
 		c.units = []written{{Track: a.Track, ID: u.ID, PTS: a.PTS, DTS: a.DTS, NTP: a.NTP, RA: a.RA, Atoms: au}}
 	case kVP9:
